@@ -59,11 +59,17 @@ func childMain(env *core.Env, args []string) int {
 	sc := bufio.NewScanner(os.Stdin)
 	sc.Buffer(make([]byte, 1<<20), 1<<28)
 	var rig *Rig
-	defer func() {
+	cleanup := func() {
 		if rig != nil {
 			rig.Close()
+			rig = nil
 		}
-	}()
+		// the private temp directory the parent made for this child (node data directories live in it)
+		if d := os.Getenv("VH_EXEC_TMP"); d != "" {
+			os.RemoveAll(d)
+		}
+	}
+	defer cleanup()
 	send := func(r *Reply) {
 		r.Pid = os.Getpid()
 		b, _ := json.Marshal(r)
@@ -109,6 +115,20 @@ func childMain(env *core.Env, args []string) int {
 					reps = 1
 				}
 				rep := &Reply{OK: true}
+				if c.Mode == "execconc" {
+					blk, fee, err := rig.BuildBlock(c.Items, c.Salt)
+					if err != nil {
+						send(&Reply{Err: "build: " + err.Error()})
+						return
+					}
+					side, _, _ := rig.BuildBlock([][]TxSpec{{{Exec: "none"}}, {{Exec: "verifx", Script: []Op{{O: "S", K: "mavl-verifx-conc", V: "v1|", M: "both"}}}}}, 9)
+					rep.Outs = rig.ExecConcurrent(blk, side, reps)
+					o, _ := rig.Exec(blk, fee)
+					rep.Outs = append(rep.Outs, o)
+					rep.Gmp = runtime.GOMAXPROCS(0)
+					send(rep)
+					return
+				}
 				for i := 0; i < reps; i++ {
 					blk, fee, err := rig.BuildBlock(c.Items, c.Salt)
 					if err != nil {
@@ -155,10 +175,7 @@ func childMain(env *core.Env, args []string) int {
 				}
 				send(&Reply{OK: true})
 			case "quit":
-				if rig != nil {
-					rig.Close()
-					rig = nil
-				}
+				cleanup()
 				send(&Reply{OK: true})
 				os.Exit(0)
 			default:
@@ -201,6 +218,9 @@ func startChild(gmp int) (*childProc, error) {
 		c.Stderr = io.Discard
 	}
 	c.Env = os.Environ()
+	if tmp, err := os.MkdirTemp("", "vh-exec-"); err == nil {
+		c.Env = append(c.Env, "TMPDIR="+tmp, "VH_EXEC_TMP="+tmp)
+	}
 	if gmp > 0 {
 		c.Env = append(c.Env, "GOMAXPROCS="+strconv.Itoa(gmp))
 	}
